@@ -8,9 +8,10 @@ from props import c02gen as sg
 FUEL = 60
 # scope reasons / ghost marks -> finding id (first match wins)
 CLASS_OF = [("scope", "Z", "KF-C02-zero-count"), ("scope", "W", "KF-C02-continue-in-condition"),
-            ("scope", "S", "KF-C02-stray-break"), ("ghost", "L", "KF-C02-pipeline-stage-flow"),
-            ("ghost", "B", "KF-C02-bang-return-exit"), ("ghost", "C", "KF-C02-condition-status"),
-            ("ghost", "E", "KF-C03-compound")]
+            ("scope", "S", "KF-C02-stray-break"), ("ghost", "C", "KF-C02-condition-status")]
+# KF-C02-pipeline-stage-flow, KF-C02-bang-return-exit and KF-C03-compound are repaired in the code and the model follows
+# the repaired code: they are no classes any more. Their witnesses stay in `witnesses()` as regression programs - if one
+# of the defects comes back, brush differs from model, spec and bash on them and the check reports a VIOLATION.
 
 
 def parse_impl(line):
